@@ -131,7 +131,55 @@ def adjoint_structure(model: Model, R: RuleResult) -> int:
             R.ok(c.fq, what + "  (formal adjoint)")
         else:
             R.bad(rmv, rmv.node, "%s._rmv is not the adjoint of its _mv: _mv = %s, so _rmv must be %s, found %s" % (c.name, _fmt(pm), _fmt(want), _fmt(pr)), what=what)
+        # a dense form, where the class defines one, is the same operator polynomial as _mv
+        fm = c.methods.get("_fullmatrix")
+        if fm is not None:
+            try:
+                pf = _parse_matrix(_single_return(fm))
+            except Uninterpretable as e:
+                R.note("%s._fullmatrix is not an operator expression (%s) - skipped" % (c.name, e))
+                continue
+            samef = set(pf) == set(pm) and all(pf[w].eq(pm[w]) for w in pm)
+            if samef:
+                R.ok(fm.fq, "%s._fullmatrix = %s (the operator of _mv)" % (c.name, _fmt(pf)))
+            else:
+                R.bad(fm, fm.node, "%s._fullmatrix is the matrix of %s but _mv applies %s: the dense methods (exactsolve / exacteig / fullmatrix()) and the "
+                      "matrix-free ones then work on different operators" % (c.name, _fmt(pf), _fmt(pm)))
     return n
+
+
+def _parse_matrix(e: ast.AST) -> Dict[Word, Rat]:
+    """a dense-matrix expression over the operands' full matrices -> {word: coefficient} (words list the factors left to right)"""
+    from ..domains.ncalg import is_adjoint_expr
+    adj = is_adjoint_expr(e, False)
+    if adj is not None:
+        return _adjoint(_parse_matrix(adj))
+    if isinstance(e, ast.Call) and isinstance(e.func, ast.Attribute) and e.func.attr in ("fullmatrix", "_fullmatrix") and not e.args:
+        return {((ast.unparse(e.func.value), False),): C(1)}
+    if isinstance(e, ast.Call) and ast.unparse(e.func) == "torch.matmul" and len(e.args) == 2:
+        a, b = _parse_matrix(e.args[0]), _parse_matrix(e.args[1])
+        out: Dict[Word, Rat] = {}
+        for wa, ca in a.items():
+            for wb, cb in b.items():
+                out[wa + wb] = out.get(wa + wb, C(0)) + ca * cb
+        return out
+    if isinstance(e, ast.BinOp) and isinstance(e.op, (ast.Add, ast.Sub)):
+        a, b = _parse_matrix(e.left), _parse_matrix(e.right)
+        out = dict(a)
+        for w, c in b.items():
+            out[w] = out.get(w, C(0)) + (c if isinstance(e.op, ast.Add) else -c)
+        return {w: c for w, c in out.items() if not c.is_zero()}
+    if isinstance(e, ast.BinOp) and isinstance(e.op, ast.Mult):
+        for opnd, coef in ((e.left, e.right), (e.right, e.left)):
+            try:
+                k = _coef(coef)
+                inner = _parse_matrix(opnd)
+            except Uninterpretable:
+                continue
+            return {w: c * k for w, c in inner.items()}
+    if isinstance(e, ast.UnaryOp) and isinstance(e.op, ast.USub):
+        return {w: -c for w, c in _parse_matrix(e.operand).items()}
+    raise Uninterpretable("matrix expression %s" % ast.unparse(e)[:60])
 
 
 def _strip_guards(fi: FuncInfo) -> ast.AST:
